@@ -111,6 +111,9 @@ def render_token(tok, cfg):
             return "call *%s" % tok["to"]
         if t == "ref":
             a = tok.get("addend", 0)
+            if fam == "x64" and tok.get("imm") is not None:
+                # a displacement followed by an immediate: LLVM's PC-relative adjustment is not 4
+                return ("mov dword ptr [rip + %s], %d" % (_ref(tok["to"], a), tok["imm"])) if intel else ("movl $%d, %s(%%rip)" % (tok["imm"], _ref(tok["to"], a)))
             if fam == "x64":
                 if tok.get("got"):
                     return ("mov rax, qword ptr [rip + %s@GOTPCREL]" % tok["to"]) if intel else ("movq %s@GOTPCREL(%%rip), %%rax" % tok["to"])
@@ -137,6 +140,8 @@ def render_token(tok, cfg):
                 return "ldr x0, [x0, :got_lo12:%s]" % tok["to"]
             if tok.get("lo12"):
                 return "add x0, x0, :lo12:%s" % tok["to"]
+            if tok.get("lit"):
+                return "ldr x1, " + _ref(tok["to"], tok.get("addend", 0))
             return "adrp x0, " + _ref(tok["to"], tok.get("addend", 0))
     if fam == "mips":
         if t == "op":
